@@ -19,7 +19,7 @@ def hist_abstract(ctx):
     real = np.histogram
     bad = {}
     n = 0
-    x = np.concatenate([rs.uniform(0, 1, 40), [0.05, 0.06, 0.07, 0.08]])
+    x = np.concatenate([rs.uniform(0.2, 1, 40), [0.05, 0.06, 0.07, 0.08]])   # the four special entries are ALONE in their bin ([0, 0.1) resp. [0, 0.2))
     w_signed = np.concatenate([rs.uniform(-1, 1, 40), [1.0, -1.0, 0.5, -0.5]])   # the last four fall into one bin of every binning below and cancel exactly
     cases = [((), dict(bins=10, range=(0, 1))), ((10,), dict(range=(0.0, 1.0))), ((np.linspace(0, 1, 11),), {}), ((), dict(bins=np.linspace(0, 1, 6))), ((5,), {})]
     for args, kw in cases:
@@ -54,10 +54,10 @@ def hist_abstract(ctx):
                     cnt, cnt2 = entries, entries
                 else:
                     with_w = [c for c in calls if c[2] is not None]
-                    ok_w = (len(with_w) == 2 and np.array_equal(with_w[0][2], w) and np.array_equal(with_w[1][2], w ** 2) and any(c[2] is None for c in calls))
+                    ok_w = any(np.array_equal(c[2], w) for c in with_w) and any(np.array_equal(c[2], w ** 2) for c in with_w)
                     cnt, cnt2 = real(x, *args, weights=w, **kw)[0], real(x, *args, weights=w ** 2, **kw)[0]
                 if not ok_w:
-                    bad.setdefault("weights_then_squares_then_entries", dict(desc, weights_seen=[None if c[2] is None else "array" for c in calls]))
+                    bad.setdefault("weights_and_squares_requested", dict(desc, weights_seen=[None if c[2] is None else "array" for c in calls]))
                 want_err2 = np.where(entries == 0, mask, cnt2)
                 got_err2 = np.asarray(h.error) ** 2 if np.isfinite(mask) else np.where(np.isinf(h.error), np.inf, np.asarray(h.error) ** 2)
                 if not (np.allclose(h.count, cnt, rtol=0, atol=0) and np.allclose(np.where(np.isinf(want_err2), -1.0, want_err2), np.where(np.isinf(got_err2), -1.0, got_err2), rtol=1e-14, atol=0)):
@@ -66,7 +66,7 @@ def hist_abstract(ctx):
                 if w is not None and abs(float(np.sum(h.count)) - float(np.sum(w[(x >= h.binning[0]) & (x <= h.binning[-1])]))) > 1e-12:
                     bad.setdefault("sum_of_weights_conserved", dict(desc, sum_count=float(np.sum(h.count))))
     for name, clause in (("same_binning_arguments", "every numpy.histogram call of one Hist1D.histogram call bins into the same edges (bins= / range= repeated, or the edges of the first call re-used)"),
-                         ("weights_then_squares_then_entries", "the calls carry the weights, the SQUARED weights, and no weights (the entry count that decides which bins are empty)"),
+                         ("weights_and_squares_requested", "among the calls one carries the weights and one the SQUARED weights (how emptiness of a bin is decided is left to the outcome clause)"),
                          ("assembled_from_the_three_results", "count == weighted sums; error^2 == sum w^2 in every bin that has entries (also when the weights cancel), mask_error only in bins without entries"),
                          ("sum_of_weights_conserved", "sum of the counts == sum of the in-range weights")):
         ctx.check(name, name not in bad, clause=clause + " (%d histograms)" % n, detail=str(bad.get(name)), witness=bad.get(name))
